@@ -178,7 +178,8 @@ ExpectedDetails(c, phase, dur) ==
    bucket |-> c.bucket, key |-> c.key,
    uploadId |-> IF phase = "COMPLETE" /\ c.m = "CreateMultipartUpload" THEN c.uid ELSE c.uploadId,
    partNumber |-> c.partNumber, sourceBucket |-> c.sourceBucket, sourceKey |-> c.sourceKey,
-   credentialId |-> c.credentialId, authType |-> c.authType,
+   credentialId |-> c.credentialId,
+   authType |-> IF c.authType = "" THEN "anonymous" ELSE c.authType,   \* no auth type in the context
    requestId |-> c.id, traceId |-> c.traceId, clientIp |-> c.clientIp,
    statusCode |-> IF phase = "START" THEN 0 ELSE IF c.err = "" THEN 200 ELSE 500,
    outcome |-> IF phase = "START" THEN "pending" ELSE IF c.err = "" THEN "success" ELSE "error",
